@@ -29,7 +29,7 @@ ANCHOR_FUNCS = [("mofun/cli/mofun_cli.py", "mofun_cli"), ("mofun/cli/mofun_cli.p
 REQUIRED_LINES = [("mofun/cli/mofun_cli.py", "atoms = atoms.replicate(repls)"), ("mofun/cli/mofun_cli.py", "aseatoms.symbols[atoms.groups == 0] = framework_element"),
                   ("mofun/cli/mofun_cli.py", "atoms.charges = charges"), ("mofun/cli/mofun_cli.py", "assign_pair_params_to_structure(atoms)\n")]
 JOBS = {"quick": 4, "thorough": 16}
-OPTS = ["atol", "fraction", "hints", "replicate", "mic", "charges", "pp", "framework", "findonly", "none"]
+OPTS = ["atol", "fraction", "hints", "replicate", "mic", "charges", "pp", "framework", "findonly", "none", "replace_without_find"]
 
 
 def cases(tier, seed):
@@ -209,6 +209,8 @@ def compare_run(ctx, st, inp, out_cli, out_api, opt, seed, w, label=""):
         diff = [(x, y) for x, y in zip(la, lb) if x != y][:3]
         ctx.fail("%sthe command's output differs from load/replicate/replace/save through the API (%d vs %d lines): %s" % (label, len(la), len(lb), diff), witness=w)
     st.count("outputs_compared")
+    if opt.get("find") is None and opt.get("replace") is not None and "Cannot perform a replace operation without a find operation" not in res.output:
+        ctx.fail("%sa replacement without a find pattern was not refused with the documented message: %r" % (label, res.output[-200:]), witness=w)
     # 2. find-only: printed matches
     if opt.get("find") is not None and opt.get("replace") is None:
         want = "Found %d instances of the search_pattern in the structure\n%s\n" % (len(results), results)
@@ -310,6 +312,10 @@ def run_case(case, ctx):
             opt["replace"] = rpath
         elif "findonly" not in chosen:
             chosen.add("findonly")
+        if "replace_without_find" in chosen and opt.get("replace") is not None:
+            # documented: a replacement without a find pattern is refused with a message; everything else still happens
+            del opt["find"]
+            st.count("replace_without_find_runs")
         if "atol" in chosen or atol_plant == 0.3:
             opt["atol"] = 0.3 if atol_plant == 0.3 else 0.08
         if "fraction" in chosen:
@@ -385,7 +391,7 @@ def docs_example(ctx, st, case, tmp, rng):
 
 def requirements(stats, tier):
     need = []
-    for o in OPTS[:9]:
+    for o in OPTS[:9] + ["replace_without_find"]:
         if not stats.has("option_exercised_singly", o):
             need.append("option class %s never exercised singly" % o)
     if stats.get("outputs_compared") < (180 if tier == "quick" else 30000):
